@@ -671,6 +671,9 @@ pub fn gen_c04(rng: &mut Rng, tier: Tier) -> NetProgram {
             prog.modules[v].tasks = crate::asy::gen_tasks_c04(rng);
         }
     }
+    // the application an error-free run hands back may be run a second time (new runtime, same seed): both lives are
+    // part of the history that has to be reproducible
+    prog.rerun = rng.chance(1, 6);
     prog
 }
 
